@@ -116,7 +116,16 @@ def make_actor(table_path: str, op: Dict[str, Any], shared_table: Any = None, st
             sched = S_current()
             for api in op["apis"]:
                 sched.yield_point("ReadStart", api)
-                if api == "scan":
+                if op.get("tolerate_errors"):
+                    # a read that hits an (injected) storage fault may raise -- it then returns no rows, which the
+                    # properties allow; what it returns when it does NOT raise is judged as usual
+                    try:
+                        rows = _read_api(t, api)
+                    except Exception as ex:     # noqa: BLE001
+                        sched.yield_point("ReadEnd", api)["result"] = "raised:" + type(ex).__name__
+                        out.append((api, "raised:" + type(ex).__name__))
+                        continue
+                elif api == "scan":
                     rows = t.scan()
                 elif api == "scan_parallel":
                     rows = t.scan(parallel=2)
@@ -140,6 +149,22 @@ def make_actor(table_path: str, op: Dict[str, Any], shared_table: Any = None, st
 # ---------------------------------------------------------------------------------------------------
 # independent reader (no datashard imports)
 # ---------------------------------------------------------------------------------------------------
+def _read_api(t: Any, api: str) -> Any:
+    if api == "scan":
+        return t.scan()
+    if api == "scan_parallel":
+        return t.scan(parallel=2)
+    if api == "scan_noverify":
+        return t.scan(verify_checksums=False)
+    if api == "scan_batches":
+        return [r for b in t.scan_batches(batch_size=1) for r in b]
+    if api == "iter_records":
+        return list(t.iter_records())
+    if api == "row_count":
+        return t.row_count()
+    raise ValueError(api)
+
+
 def read_table_independent(root: Any) -> Dict[str, Any]:
     """Pointer -> metadata JSON -> manifest lists -> manifests -> parquet rows, using json/fastavro/pyarrow only.
     `root` is a directory, or a function relpath -> bytes (object stores)."""
